@@ -209,6 +209,13 @@ func genDocument(r *vlib.Rng, size int) genDoc {
 	for g.budget > 0 {
 		g.element(&body, 0, false)
 	}
+	return g.wrap(body.String(), true)
+}
+
+// wrap puts the generated body into the common document frame (page box, root
+// element and body with their own colours)
+func (g *genState) wrap(body string, smallPages bool) genDoc {
+	r := g.r
 	var sb strings.Builder
 	htmlStyle := fmt.Sprintf("border-color:%s;color:%s;", colour(codeBase+1), colour(codeBase+2))
 	if r.Chance(4, 5) {
@@ -221,7 +228,7 @@ func genDocument(r *vlib.Rng, size int) genDoc {
 		g.tag("root-z")
 	}
 	pageH := 3000
-	if r.Chance(1, 10) { // a few documents break over several pages (boxes split at page breaks)
+	if smallPages && r.Chance(1, 10) { // a few documents break over several pages (boxes split at page breaks)
 		pageH = r.Range(90, 200)
 		g.tag("small-page")
 	}
@@ -239,10 +246,171 @@ func genDocument(r *vlib.Rng, size int) genDoc {
 div,span{border:1px solid;padding:1px 2px}
 html,body{border:1px solid;padding:1px;margin:0}
 </style></head><body id="e1" style="background:%s;border-color:%s;color:%s">%s</body></html>`,
-		htmlStyle, pageCSS, colour(codeBase+4), colour(codeBase+5), colour(codeBase+6), body.String())
+		htmlStyle, pageCSS, colour(codeBase+4), colour(codeBase+5), colour(codeBase+6), body)
 	var tags []string
 	for t := range g.tags {
 		tags = append(tags, t)
 	}
 	return genDoc{HTML: sb.String(), Tags: tags, N: g.next}
+}
+
+// ---------------------------------------------------------------- wide stacking contexts
+//
+// NewStackingContext orders the negative and the positive child contexts with
+// sort.SliceStable; the theorems (C16_stable_partition_sort, C16_paint_order_spec)
+// rest on that contract.  A sort that is not stable agrees with a stable one on
+// short lists (Go's sort.Slice is an insertion sort up to 12 elements) and on
+// lists already in order, so this stream produces stacking contexts owning MANY
+// (13-40) child contexts of one sign whose z-indices come from a small multiset
+// (ties) in shuffled order: directly as children, hoisted through non-positioned
+// wrappers and z-index:auto positioned boxes (fake contexts), nested, for the
+// negative and for the positive list.
+
+// zSequence returns n z-indices of the given sign drawn from a small multiset,
+// with at least one tie and not in non-decreasing order
+func zSequence(r *vlib.Rng, n int, sign int) []int {
+	pools := [][]int{{1, 2}, {1, 2, 3}, {1, 1, 2, 5}, {1, 3, 3, 7, 100}, {2, 4}}
+	pool := vlib.Pick(r, pools)
+	for {
+		zs := make([]int, n)
+		for i := range zs {
+			zs[i] = sign * vlib.Pick(r, pool)
+		}
+		sorted := true
+		for i := 1; i < n; i++ {
+			if zs[i-1] > zs[i] {
+				sorted = false
+			}
+		}
+		if !sorted { // n >= 13 values out of <= 4: ties are certain
+			return zs
+		}
+	}
+}
+
+// wideGroup emits a box owning many positioned children; level = nesting depth of wide groups
+func (g *genState) wideGroup(sb *strings.Builder, level int) {
+	r := g.r
+	k := g.next
+	g.next++
+	var css strings.Builder
+	fmt.Fprintf(&css, "background:%s;border-color:%s;color:%s;", colour(codeBase+4*k), colour(codeBase+4*k+1), colour(codeBase+4*k+2))
+	// what the owner of the children is
+	switch r.Intn(6) {
+	case 0: // real context by z-index
+		fmt.Fprintf(&css, "position:relative;z-index:%d;", vlib.Pick(r, []int{-1, 0, 0, 1, 2}))
+		g.tag("wide-owner-z")
+	case 1:
+		fmt.Fprintf(&css, "opacity:%.3f;", float64(k)/1000)
+		g.tag("wide-owner-opacity")
+	case 2:
+		fmt.Fprintf(&css, "transform:translate(%dpx,0);", k)
+		g.tag("wide-owner-transform")
+	case 3: // fake context: the children belong to the enclosing real context
+		css.WriteString("position:relative;")
+		g.tag("wide-owner-fake")
+	case 4:
+		fmt.Fprintf(&css, "position:absolute;top:%dpx;left:%dpx;width:%dpx;z-index:%d;", r.Range(0, 200), r.Range(300, 600), r.Range(150, 300), vlib.Pick(r, []int{-1, 0, 3}))
+		g.tag("wide-owner-abs")
+	default: // plain block: the children are hoisted to the enclosing context
+		g.tag("wide-owner-plain")
+	}
+	fmt.Fprintf(sb, `<div id="e%d" style="%s">`, k, css.String())
+	var zs []int
+	mode := r.Intn(3)
+	nmax := 40
+	if level > 0 {
+		nmax = 22
+	}
+	if mode == 0 || mode == 2 {
+		zs = append(zs, zSequence(r, r.Range(13, nmax/(1+mode/2)), -1)...)
+		g.tag("wide-neg")
+	}
+	if mode == 1 || mode == 2 {
+		zs = append(zs, zSequence(r, r.Range(13, nmax/(1+mode/2)), 1)...)
+		g.tag("wide-pos")
+	}
+	if mode == 2 { // interleave the two signs (each class keeps a shuffled order)
+		for i := len(zs) - 1; i > 0; i-- {
+			j := r.Intn(i + 1)
+			zs[i], zs[j] = zs[j], zs[i]
+		}
+	}
+	nested := 0
+	wrapOpen := false
+	for i, z := range zs {
+		// some runs of children sit in a non-positioned / z-index:auto wrapper: same owner list
+		if !wrapOpen && r.Chance(1, 10) {
+			w := g.next
+			g.next++
+			st := ""
+			if r.Bool() {
+				st = "position:relative;"
+				g.tag("wide-fake-wrapper")
+			} else {
+				g.tag("wide-plain-wrapper")
+			}
+			fmt.Fprintf(sb, `<div id="e%d" style="background:%s;border-color:%s;color:%s;%s">`, w, colour(codeBase+4*w), colour(codeBase+4*w+1), colour(codeBase+4*w+2), st)
+			wrapOpen = true
+		}
+		c := g.next
+		g.next++
+		var cs strings.Builder
+		fmt.Fprintf(&cs, "background:%s;border-color:%s;color:%s;", colour(codeBase+4*c), colour(codeBase+4*c+1), colour(codeBase+4*c+2))
+		switch r.Intn(4) {
+		case 0:
+			fmt.Fprintf(&cs, "position:absolute;top:%dpx;left:%dpx;width:%dpx;", r.Range(0, 300), r.Range(0, 500), r.Range(30, 90))
+		case 1:
+			fmt.Fprintf(&cs, "position:relative;top:%dpx;left:%dpx;", r.Range(-6, 6), r.Range(-6, 6))
+		default:
+			cs.WriteString("position:relative;")
+		}
+		fmt.Fprintf(&cs, "z-index:%d;", z)
+		if r.Chance(1, 6) {
+			fmt.Fprintf(&cs, "margin-top:%dpx;", r.Range(-8, 0))
+		}
+		if r.Chance(1, 12) {
+			fmt.Fprintf(&cs, "outline:1px solid %s;", colour(codeBase+4*c+3))
+		}
+		tagName := "div"
+		if r.Chance(1, 8) {
+			tagName = "span"
+		}
+		fmt.Fprintf(sb, `<%s id="e%d" style="%s">`, tagName, c, cs.String())
+		if r.Chance(3, 4) {
+			sb.WriteString("X")
+		}
+		if level < 2 && nested < 2 && tagName == "div" && r.Chance(1, 14) {
+			nested++
+			g.tag("wide-nested")
+			g.wideGroup(sb, level+1)
+		}
+		fmt.Fprintf(sb, "</%s>", tagName)
+		// a few extra boxes of the zero list between them
+		if r.Chance(1, 9) {
+			e := g.next
+			g.next++
+			st := vlib.Pick(r, []string{"position:relative;", "position:relative;z-index:0;", fmt.Sprintf("opacity:%.3f;", float64(e)/1000), "float:left;width:30px;"})
+			fmt.Fprintf(sb, `<div id="e%d" style="background:%s;border-color:%s;color:%s;%s">X</div>`, e, colour(codeBase+4*e), colour(codeBase+4*e+1), colour(codeBase+4*e+2), st)
+		}
+		if wrapOpen && (r.Chance(1, 3) || i == len(zs)-1) {
+			sb.WriteString("</div>")
+			wrapOpen = false
+		}
+	}
+	sb.WriteString("</div>")
+}
+
+func genWideDocument(r *vlib.Rng) genDoc {
+	g := &genState{r: r, next: 2, tags: map[string]bool{}}
+	g.tag("wide-ctx")
+	var body strings.Builder
+	if r.Chance(1, 3) {
+		body.WriteString("X")
+	}
+	g.wideGroup(&body, 0)
+	if r.Chance(1, 4) {
+		g.wideGroup(&body, 1)
+	}
+	return g.wrap(body.String(), false)
 }
